@@ -226,13 +226,13 @@ func (u *Unit) contractCall(st *State, instr ssa.Instruction, fs *FuncSpec, name
 	pnames := fs.Params
 	var ptypes []types.Type
 	if fs.Kind == "func" && len(fs.Params) > 0 {
-		// trusted contract of a foreign function: parameter names from the header
+		// trusted contract of a foreign function: parameter names from the header,
+		// types from the signature (receiver first)
+		if sig.Recv() != nil {
+			ptypes = append(ptypes, sig.Recv().Type())
+		}
 		for i := 0; i < sig.Params().Len(); i++ {
-			off := 0
-			if sig.Recv() != nil {
-				off = 1
-			}
-			_ = off
+			ptypes = append(ptypes, sig.Params().At(i).Type())
 		}
 	} else if fs.Kind == "func" {
 		if fn := u.eng.funcByName(u.pkg, fs.Name); fn != nil {
@@ -368,6 +368,7 @@ func (u *Unit) contractCall(st *State, instr ssa.Instruction, fs *FuncSpec, name
 	if fs.Trusted || fs.Kind != "func" {
 		u.note("assumed contract: " + fs.Kind + " " + name)
 	}
+	u.addCover(st, site+".return", "", "the state after the call of "+name+" (its contract assumed) is not contradictory")
 	outs = append(outs, callRes{st: st, val: v})
 	return outs
 }
@@ -1175,6 +1176,23 @@ func (u *Unit) addOblig(st *State, name, text string, props []string, goal T, in
 	u.obligs = append(u.obligs, o)
 }
 
+// addCover records a reachability check: the assumptions collected so far must
+// not be contradictory (an inconsistent assumed contract, invariant or
+// precondition would make every later obligation hold vacuously).
+func (u *Unit) addCover(st *State, name, group, text string) {
+	n := relName(u.fn) + "#cover." + name
+	for _, c := range u.covers {
+		if c.Name == n && group != "exit" {
+			// one cover per site: keep the first path instance
+			return
+		}
+	}
+	if group == "exit" {
+		n = fmt.Sprintf("%s.%d", n, len(u.covers))
+	}
+	u.covers = append(u.covers, &Oblig{Name: n, Func: relName(u.fn), Kind: "cover", Group: group, Assume: append([]T(nil), st.pc...), Goal: False, Text: text})
+}
+
 func (u *Unit) checkNonNilPtr(st *State, p *Ptr, in ssa.Instruction) {
 	if p.kind == pDeref {
 		u.addOblig(st, "nopanic.nilderef", "", nil, Neq(p.base, IntLit(0)), in, "implicit: pointer dereference of non-nil pointer")
@@ -1374,7 +1392,7 @@ func (u *Unit) iterateCall(st *State, instr ssa.Instruction, fs *FuncSpec, name 
 	eff := u.effectsOfFunc(y.fn, map[*ssa.Function]bool{})
 	for i, fv := range y.fn.FreeVars {
 		if eff.roots[fv] && i < len(y.binds) {
-			if p, ok := y.binds[i].(*Ptr); ok && p.kind == pCell && p.cell.promoted == nil {
+			if p, ok := y.binds[i].(*Ptr); ok && p.kind == pCell && !st.promo[p.cell] {
 				cur := st.cells[p.cell]
 				if _, isT := cur.(T); isT || cur == nil {
 					st.cells[p.cell] = u.freshOfType(st, "iter."+p.cell.name, p.cell.typ)
@@ -1500,6 +1518,25 @@ func (u *Unit) isPrivateArr(st *State, sl T) bool {
 		if p.ref.S == a {
 			return true
 		}
+	}
+	return false
+}
+
+// isPrivateSliceTerm: like isPrivateArr, looking through named terms and
+// if-then-else merges.
+func (u *Unit) isPrivateSliceTerm(st *State, sl T, depth int) bool {
+	if depth > 6 {
+		return false
+	}
+	if u.isPrivateArr(st, sl) {
+		return true
+	}
+	s := sl.S
+	if def, ok := u.defOf[s]; ok {
+		s = def
+	}
+	if parts := ctorArgs(s, "ite"); len(parts) == 3 {
+		return u.isPrivateSliceTerm(st, T{parts[1], SSlice}, depth+1) && u.isPrivateSliceTerm(st, T{parts[2], SSlice}, depth+1)
 	}
 	return false
 }
